@@ -10,7 +10,7 @@
 //! **Used in:** MT 940, MT 942 (statement messages)
 
 use super::swift_utils::{
-    format_swift_amount_for_currency, parse_amount_with_currency, parse_currency,
+    ensure_ascii, format_swift_amount_for_currency, parse_amount_with_currency, parse_currency,
     parse_swift_digits,
 };
 use crate::errors::ParseError;
@@ -45,6 +45,7 @@ impl SwiftField for Field90D {
     where
         Self: Sized,
     {
+        ensure_ascii(input, "Field 90")?;
         let mut remaining = input;
 
         // Parse number of transactions (5n)
@@ -148,6 +149,7 @@ impl SwiftField for Field90C {
     where
         Self: Sized,
     {
+        ensure_ascii(input, "Field 90")?;
         let mut remaining = input;
 
         // Parse number of transactions (5n)
